@@ -1,6 +1,7 @@
 package main
 
 import (
+	"fmt"
 	"go/types"
 	"strings"
 
@@ -91,12 +92,21 @@ func (lc *logClassifier) instr(i ssa.Instruction) string {
 			return ""
 		}
 		if c.IsInvoke() {
-			switch c.Method.Name() {
-			case "String", "Error", "Name", "Kind", "Write":
-				return ""
-			}
 			if strings.HasSuffix(c.Value.Type().String(), "reflect.Type") {
 				return "" // reflect.Type methods are read-only
+			}
+			if nt, ok := c.Value.Type().(*types.Named); ok && nt.Obj().Pkg() != nil && strings.HasPrefix(nt.Obj().Pkg().Path(), Mod) {
+				switch c.Method.Name() {
+				case "String", "Error", "Name":
+					return "" // goom's own describing methods (Mocker.String …)
+				}
+			}
+			if c.Method.Name() == "Write" && strings.HasSuffix(c.Value.Type().String(), "io.Writer") {
+				return ""
+			}
+			switch c.Method.Name() {
+			case "String", "Error":
+				return "method " + c.Method.Name() + "() of a user-supplied value is invoked directly at " + p.Pos(posOf(i)) + " (outside fmt, which recovers panics of such methods): a typed-nil error or a panicking Stringer makes the mocked call panic only when logging is on"
 			}
 			return "dynamic call " + cn + " at " + p.Pos(posOf(i))
 		}
@@ -132,6 +142,7 @@ func c19(c *Ctx) {
 	r.RuleText = "one obligation per (rule, tainted branch / closure / return)"
 	r.Floor("C19.R1", 3)
 	r.Floor("C19.R2", 6)
+	r.Floor("C19.R3", 2)
 	lc := &logClassifier{p: p, memo: map[*ssa.Function]int{}, why: map[*ssa.Function]string{}}
 	lp := p.Pkg("internal/logger")
 	if lp == nil {
@@ -231,6 +242,29 @@ func c19(c *Ctx) {
 		})
 	}
 	r.Stat("tainted_branches", nBr)
+	// the renderer used for log text (called with the mock's arguments/results) is itself log-only, in particular
+	// it never invokes methods of the rendered values directly
+	if sv := p.Fn("arg", "SprintV"); sv != nil {
+		ok := lc.safeFn(sv)
+		r.Check(ok, "C19.R3", "arg.SprintV renders through fmt only", p.Pos(sv.Pos()), "no direct user-method calls, no writes, no panics", "the log renderer is not log-only: "+lc.why[sv])
+		// nil pointer / nil interface values are rendered without touching them
+		okNil := false
+		eachInstr(sv, func(i ssa.Instruction) {
+			if iff, ok := i.(*ssa.If); ok {
+				if cl, ok := iff.Cond.(*ssa.Call); ok {
+					if cal := staticCallee(cl.Common()); cal != nil && strings.Contains(strings.ToLower(cal.Name()), "zero") {
+						ks := kindsInto(iff.Block())
+						if ks[20] && ks[22] {
+							okNil = true
+						}
+					}
+				}
+			}
+		})
+		r.Check(okNil, "C19.R3", "arg.SprintV guards nil pointers/interfaces", p.Pos(sv.Pos()), "Interface/Ptr kinds tested for zero before Interface()", "the renderer no longer special-cases nil pointer / nil interface values before calling Interface()")
+	} else {
+		r.Und("C19.R3", "arg.SprintV", "", "renderer not found")
+	}
 	// logger package itself must not call back into mocking packages
 	for _, f := range p.FuncsIn("internal/logger") {
 		eachInstr(f, func(i ssa.Instruction) {
@@ -274,6 +308,44 @@ func c19(c *Ctx) {
 		}
 		r.Check(same, "C19.R2", "closed-debug return of "+shortName(interceptor), p.Pos(posOf(ret)), "inputs returned untouched", "with debugging closed the interceptor does not return its inputs unchanged")
 	}
+	// every result of the interceptor is one of its own inputs or a wrapper built in this very call; it keeps no package-level state
+	for _, ret := range returnsOf(interceptor) {
+		for k := range ret.Results {
+			rv := retResult(ret, k)
+			okR := true
+			why := ""
+			for _, a := range origins(rv) {
+				switch a.Kind {
+				case "param":
+				case "call":
+					if a.Name != "(reflect.Value).Interface" {
+						okR, why = false, a.String()
+					} else if cl, ok := a.V.(*ssa.Call); ok {
+						if mf, ok := cl.Call.Args[0].(*ssa.Call); !ok || calleeName(mf.Common()) != "reflect.MakeFunc" {
+							okR, why = false, "Interface() of something other than this call's MakeFunc"
+						}
+					}
+				case "other":
+					if _, ok := a.V.(*ssa.MakeClosure); !ok {
+						okR, why = false, a.String()
+					}
+				default:
+					okR, why = false, a.String()
+				}
+			}
+			r.Check(okR, "C19.R2", fmt.Sprintf("interceptor result #%d at %s is an input or a wrapper built in this call", k, blockOrdinalRet(ret)), p.Pos(posOf(ret)), "no reuse across calls",
+				"the interceptor returns a value that is neither its input nor a wrapper created in this call ("+why+"): a cached wrapper keeps calling the callback it was first built around, so with logging on a later Apply of another closure of the same code keeps the stale one")
+		}
+	}
+	globalUse := ""
+	eachInstr(interceptor, func(i ssa.Instruction) {
+		for _, op := range i.Operands(nil) {
+			if g, ok := (*op).(*ssa.Global); ok && strings.HasPrefix(g.Pkg.Pkg.Path(), Mod) && relPkgPath(g.Pkg.Pkg.Path()) != "internal/logger" {
+				globalUse = g.Name() + " at " + p.Pos(posOf(i))
+			}
+		}
+	})
+	r.Check(globalUse == "", "C19.R2", "interceptor keeps no package-level state", p.Pos(interceptor.Pos()), "no package-level variable is read or written", "the interception point uses package-level state ("+globalUse+"): what a mock does under logging depends on earlier calls")
 	for _, cl := range interceptor.AnonFuncs {
 		cons := "wrapper " + shortName(cl)
 		if len(cl.Params) != 1 {
@@ -521,4 +593,11 @@ func derefAlloc(v ssa.Value) ssa.Value {
 		}
 	}
 	return v
+}
+
+func relPkgPath(pp string) string {
+	if pp == Mod {
+		return ""
+	}
+	return strings.TrimPrefix(pp, Mod+"/")
 }
